@@ -167,6 +167,8 @@ def attribute(tokeniser: 'Tokeniser') -> GenericAttribute:
     if len(data) % 2:
         raise ValueError(f"'{data}' has invalid length\n  Hexadecimal data must have even number of digits")
     data_bytes: bytes = b''.join(bytes([int(data[_ : _ + 2], 16)]) for _ in range(2, len(data), 2))
+    if len(data_bytes) > _SIZE_H:
+        raise ValueError(f'attribute data is {len(data_bytes)} bytes long\n  An attribute holds at most {_SIZE_H} bytes')
 
     end = tokeniser()
     if end != ']':
